@@ -43,6 +43,12 @@ def run(run, ix, tier):
     if len(t.findings) != 1:
         raise AnalysisError('C-R9 detector does not recognise its positive example')
     check_stale_packs(run, ix, 'C-R9', prefix='mpci_')
+    check_overlap(run, ix)
+    from . import iv_rules
+    run.rule('C-R13', floor=12, desc='non-audited rectangle functions compose interval operations only')
+    iv_rules.check_composition(run, ix, True)
+    # the real helper that mpci_cos / mpci_sin rely on
+    iv_rules.check_composition(run, ix, False)
 
 
 def check_binary_op(run, ix):
@@ -107,3 +113,48 @@ def check_binary_op(run, ix):
                                  'operator table row binds %s to %s' % (t, args), line=st.lineno))
     if seen < 5:
         raise AnalysisError('operator table rows of ctx_iv not found')
+
+
+def check_overlap(run, ix):
+    """C-R12: mpi_overlap (which decides whether a rectangle meets the excluded strip of the gamma
+    function, i.e. whether the corner-based enclosure may be used) is the intersection predicate.
+    It touches its operands only through the exact order kernels, so -- as for C16 -- its syntax
+    tree is interpreted on every weak ordering of the four endpoints and compared with
+    `the intervals have a common point`.  Exhaustive over the abstraction."""
+    from ..order_abs import OrderEvaluator, Unsupported, weak_orderings
+    LIBMPI = 'mpmath/libmp/libmpi.py'
+    f = ix.func(LIBMPI, 'mpi_overlap')
+    orders = weak_orderings()
+    run.rule('C-R12', floor=len(orders), desc='mpi_overlap is the intersection predicate on every endpoint ordering')
+    bad = None
+    nbad = 0
+    for o in orders:
+        sa, sb, ta, tb = o
+        try:
+            got = OrderEvaluator(ix, LIBMPI).run_func(f, [(sa, sb), (ta, tb)])
+        except Unsupported as e:
+            raise AnalysisError('mpi_overlap: %s' % e)
+        want = not (sb < ta or tb < sa)
+        if got is not want:
+            nbad += 1
+            bad = bad or (o, got, want)
+            run.rule('C-R12')['sites'] += 1
+            run.obligations += 1
+        else:
+            run.ok('C-R12')
+    if bad:
+        o, got, want = bad
+        run.rule('C-R12')['failed'] += nbad
+        run.findings.append(Finding(
+            'C-R12', LIBMPI, 'mpi_overlap', 'def mpi_overlap',
+            'on %d of %d endpoint orderings the result differs from "the intervals have a common point"; e.g. '
+            'ranks (xa,xb,ya,yb)=%s: returns %r, expected %r.  mpci_gamma then applies the corner-based enclosure '
+            'inside the region where gamma is not monotone' % (nbad, len(orders), o, got, want), line=f.lineno))
+    # its only user tests the imaginary part against the excluded strip
+    g = ix.func(LIBMPI, 'mpci_gamma')
+    uses = [x for x in _walk_own(g.node) if isinstance(x, ast.Call) and norm(x.func) == 'mpi_overlap']
+    if uses:
+        run.ok('C-R12', 'mpci_gamma consults mpi_overlap: %s' % norm(uses[0], 60))
+    else:
+        run.fail(Finding('C-R12', LIBMPI, 'mpci_gamma', 'mpi_overlap(...)', 'the excluded-strip test vanished',
+                         line=g.lineno))
